@@ -576,6 +576,13 @@ func (g *G) scForIn() []Node {
 		out = append(out, FnD(ff, []string{"obj"}, &ForIn{Decl: true, Left: Id("kk"), Obj: Id("obj"), Body: Blk(Log(S("visit"), Id("kk")), Ret(Id("kk")))}, Ret(S("none"))),
 			Log(S("forin-return"), CallN(ff, Id(o)), CallN(ff, ObjL())))
 	}
+	if g.R.Bool() {
+		// 12.6.4, second form: the initialiser is evaluated and stored on every evaluation of
+		// the statement (the same function runs it three times), before the object expression
+		fi, ki := g.fresh("initKey"), g.fresh("ki")
+		out = append(out, FnD(fi, []string{"obj", "tag"}, &ForIn{Decl: true, Left: Id(ki), Init: Tern(Id("tag"), Seq(CallN("log", S("forin-init"), Id("tag")), S("set")), S("unset")), Obj: Seq(CallN("log", S("forin-obj"), Id(ki)), Id("obj")), Body: Blk(Log(S("visit-i"), Id(ki)))}, Ret(Id(ki))),
+			Log(S("forin-init-result"), CallN(fi, ObjL(), N(1)), CallN(fi, Id(o), N(2)), CallN(fi, ObjL(), N(0)), CallN(fi, &Null{}, N(3))))
+	}
 	g.cur().objs = append(g.cur().objs, o)
 	return out
 }
